@@ -22,6 +22,7 @@ def run(prog, tier, extra=None):
     R4 = res.rule("C05.density-anchor", "the golden-ticket density is evaluated at the tip of the candidate chain", floor=1)
     R5 = res.rule("C05.density-window", "the density helper looks at the candidate and exactly DENOMINATOR - 1 ancestors", floor=1)
     R6 = res.rule("C05.density-verdict", "no density verdict `true` is handed up without the ancestor walk having run (walker and every wrapper between it and the gate)", floor=2)
+    R7 = res.rule("C05.first-block-shortcut", "the 'ring is empty, so the new chain wins' shortcut of fork choice can only ever apply to the first block: BlockRing.empty is true only in the constructor", floor=2)
     R3 = res.rule("C05.density-constants", "the density rule is computed from MIN_GOLDEN_TICKETS_NUMERATOR/DENOMINATOR", floor=2)
 
     # R1a
@@ -383,6 +384,39 @@ def run(prog, tier, extra=None):
                             b.loc(path[-1]), {"path": describe_path(b, path)}))
         else:
             res.sample({"rule": R6, "body": name, "walk_points": [b.loc(x) for x in sorted(pts)], "verdict": "every possibly-true return is behind the walk"})
+
+    # R7: is_new_chain_the_longest_chain answers true without comparing lengths or burn fees while BlockRing::is_empty(). The flag
+    # is cleared when the first block is inserted; if anything can set it again (e.g. "the last block of a slot was deleted"), the
+    # next block delivered - an equal-length or lighter fork block - takes the tip unexamined.
+    from ..paths import const_bool as _cb7
+    from ..fields import place_has_field as _phf7
+    for b in prog.all_bodies():
+        if "::tests::" in b.path or "/test/" in b.file or b.is_promoted or not b.path.startswith("saito_"):
+            continue
+        for bb, blk in enumerate(b.blocks):
+            for st in blk["s"]:
+                if st[0] != "=":
+                    continue
+                val = None
+                if _phf7(st[1], "blockring::BlockRing", "empty") is not None and st[1][1] and isinstance(st[1][1][-1], list) and st[1][1][-1][3] == "empty":
+                    val = _cb7(st[2][1]) if st[2][0] == "use" else None
+                    where = "assigns"
+                elif st[2][0] == "agg" and st[2][1][0] == "adt" and st[2][1][1].endswith("blockring::BlockRing") and "empty" in (st[2][1][4] or []):
+                    val = _cb7(st[2][2][st[2][1][4].index("empty")])
+                    where = "constructs"
+                    if b.path.endswith("blockring::BlockRing::new") or "Default" in b.path:
+                        res.instance(R7)
+                        res.sample({"rule": R7, "site": b.loc(bb), "body": b.path.replace(CORE, ""), "value": val, "verdict": "constructor"})
+                        continue
+                else:
+                    continue
+                res.instance(R7)
+                if val is False:
+                    res.sample({"rule": R7, "site": b.loc(bb), "body": b.path.replace(CORE, ""), "value": False})
+                else:
+                    res.add(Finding(R7, "C05.first-block-shortcut|%s" % b.path.replace("::{closure#0}", ""), "%s %s BlockRing.empty = %s outside the constructor: while the flag is set, "
+                                    "is_new_chain_the_longest_chain accepts the next block as the longest chain without comparing length or burn fee"
+                                    % (b.path.replace(CORE, "").replace("::{closure#0}", ""), where, "true" if val else "a computed value"), b.loc(bb)))
 
     # fork choice finds the shared ancestor by walking back to the first block flagged in_longest_chain: the flags must follow
     # every wind/unwind step (C03.lockstep, cross-listed), or a branch that once lost the tip can never win it back
